@@ -2,5 +2,7 @@
    bool, option, unit, list, prod, sumbool, sumor map to OCaml's; N/positive/nat stay Coq data). *)
 From Coq Require Import Extraction ExtrOcamlBasic.
 From FatVerif Require Import Model.Base Model.Time.
+From FatVerif Require Import Model.Str Model.Slot Model.Name Model.ShortName.
 Separate Extraction
-  Model.Base Model.Time.
+  Model.Base Model.Time
+  Model.Str Model.Slot Model.Name Model.ShortName.
